@@ -36,9 +36,9 @@ theorem C15_first_failing_check_decides (c : Case) (e : Exc) :
 /-! ### two-sided characterisation against the table -/
 
 /-- **C15_sound**: whatever is raised is the documented type of a rule that applies (or of one of the two
-    open readings), unless the case is the listed deviation K15a. -/
+    open readings). -/
 theorem C15_sound (c : Case) (k : Exc) (h : defError c = some k) :
-    strWithoutRepr c = true ∨ allowedKind c k = true := by
+    allowedKind c k = true := by
   rw [defError_eq] at h
   unfold checks at h
   rw [firstFail_append] at h
@@ -50,7 +50,7 @@ theorem C15_sound (c : Case) (k : Exc) (h : defError c = some k) :
     obtain ⟨p, hp, h1, h2⟩ := firstFail_some_mem hF
     obtain ⟨f, hf, hpf⟩ := List.mem_flatMap.1 hp
     obtain ⟨r, hr, hk⟩ := fieldChecks_sound c f hf p hpf h1
-    right; rw [← h2, ← hk]; exact allowed_of_rule r hr
+    rw [← h2, ← hk]; exact allowed_of_rule r hr
   | none =>
     rw [hF] at h
     simp only at h
@@ -59,7 +59,6 @@ theorem C15_sound (c : Case) (k : Exc) (h : defError c = some k) :
     by_cases hd : (c.api == .define && c.baseFrozen && c.onSetattr.isHook) = true
     · simp only [hd, if_true, Option.some.injEq] at h
       subst h
-      right
       rcases defineCheck_sound c hd with ⟨r, hr, hk⟩ | ⟨r, hr, hk⟩
       · rw [← hk]; exact allowed_of_rule r hr
       · rw [← hk]; exact allowed_of_may r hr
@@ -68,14 +67,13 @@ theorem C15_sound (c : Case) (k : Exc) (h : defError c = some k) :
       · simp only [he, if_true, Option.some.injEq] at h
         subst h
         obtain ⟨r, hr, hk⟩ := eqOrder_sound c he
-        right; rw [← hk]; exact allowed_of_rule r hr
+        rw [← hk]; exact allowed_of_rule r hr
       · have he' : c.eqOrderFails = false := by simpa using he
         simp only [he', Bool.false_eq_true, if_false] at h
         obtain ⟨p, hp, h1, h2⟩ := firstFail_some_mem h
-        rcases wrapChecks_sound c he' p hp h1 with hk | ⟨r, hr, hk⟩ | ⟨r, hr, hk⟩
-        · exact Or.inl hk
-        · right; rw [← h2, ← hk]; exact allowed_of_rule r hr
-        · right; rw [← h2, ← hk]; exact allowed_of_may r hr
+        rcases wrapChecks_sound c he' p hp h1 with ⟨r, hr, hk⟩ | ⟨r, hr, hk⟩
+        · rw [← h2, ← hk]; exact allowed_of_rule r hr
+        · rw [← h2, ← hk]; exact allowed_of_may r hr
 
 /-- **C15_complete**: every rule of the table is enforced: if it applies, the definition is rejected —
     for every front-end, slots setting, inheritance position and whatever else the specification says. -/
@@ -84,28 +82,25 @@ theorem C15_complete (c : Case) (r : Rule) (h : r.applies c = true) : defError c
   obtain ⟨p, hp, h1⟩ := rule_complete c r h
   exact firstFail_ne_none_of_mem hp h1
 
-/-- **C15_no_spurious**: outside the table (no rule, no open reading, not K15a) the class is defined. -/
-theorem C15_no_spurious (c : Case) (hm : mustFail c = false) (hy : mayFail c = false)
-    (hk : strWithoutRepr c = false) : defError c = none := by
+/-- **C15_no_spurious**: outside the table (no rule, no open reading) the class is defined. -/
+theorem C15_no_spurious (c : Case) (hm : mustFail c = false) (hy : mayFail c = false) : defError c = none := by
   cases hd : defError c with
   | none => rfl
   | some k =>
     exfalso
-    rcases C15_sound c k hd with h | h
-    · rw [hk] at h; cases h
-    · rcases allowed_cases h with ⟨r, hr, _⟩ | ⟨r, hr, _⟩
-      · rw [mustFail_of_rule r hr] at hm; cases hm
-      · have : mayFail c = true := by
-          unfold mayFail; rw [List.any_eq_true]; exact ⟨r, may_mem_all r, hr⟩
-        rw [this] at hy; cases hy
+    rcases allowed_cases (C15_sound c k hd) with ⟨r, hr, _⟩ | ⟨r, hr, _⟩
+    · rw [mustFail_of_rule r hr] at hm; cases hm
+    · have : mayFail c = true := by
+        unfold mayFail; rw [List.any_eq_true]; exact ⟨r, may_mem_all r, hr⟩
+      rw [this] at hy; cases hy
 
-/-- **C15_characterisation**: the class is defined exactly when nothing of the table (nor an open reading, nor
-    K15a) applies. -/
+/-- **C15_characterisation**: the class is defined exactly when nothing of the table (nor an open reading)
+    applies. -/
 theorem C15_characterisation (c : Case) :
-    defError c = none ↔ (mustFail c = false ∧ mayFail c = false ∧ strWithoutRepr c = false) := by
+    defError c = none ↔ (mustFail c = false ∧ mayFail c = false) := by
   constructor
   · intro h
-    refine ⟨?_, ?_, ?_⟩
+    refine ⟨?_, ?_⟩
     · cases hm : mustFail c with
       | false => rfl
       | true =>
@@ -122,26 +117,18 @@ theorem C15_characterisation (c : Case) :
         obtain ⟨p, hp, h1⟩ := may_complete c r hr
         rw [defError_eq] at h
         exact absurd h (firstFail_ne_none_of_mem hp h1)
-    · cases hk : strWithoutRepr c with
-      | false => rfl
-      | true =>
-        obtain ⟨p, hp, h1⟩ := known_complete c hk
-        rw [defError_eq] at h
-        exact absurd h (firstFail_ne_none_of_mem hp h1)
-  · rintro ⟨h1, h2, h3⟩
-    exact C15_no_spurious c h1 h2 h3
+  · rintro ⟨h1, h2⟩
+    exact C15_no_spurious c h1 h2
 
 /-- **C15_table**: a rule that applies yields *its* documented exception type whenever every other applicable
     rule documents the same type (in particular when it is the only one that applies) — for each of the 17
     rules, every front-end, every option combination, every field list. -/
-theorem C15_table (c : Case) (r : Rule) (h : r.applies c = true) (hk : strWithoutRepr c = false)
+theorem C15_table (c : Case) (r : Rule) (h : r.applies c = true)
     (hu : ∀ k, allowedKind c k = true → k = r.kind) : defError c = some r.kind := by
   cases hd : defError c with
   | none => exact absurd hd (C15_complete c r h)
   | some k =>
-    rcases C15_sound c k hd with h' | h'
-    · rw [hk] at h'; cases h'
-    · rw [hu k h']
+    rw [hu k (C15_sound c k hd)]
 
 /-- the documented types, rule by rule -/
 theorem C15_kinds (r : Rule) :
@@ -293,13 +280,8 @@ theorem C15_defaults_documented :
 
 /-! ### the model meets the specification -/
 
-/-- **C15_model_meets_spec** (no well-formedness hypothesis is needed). -/
-theorem C15_model_meets_spec (c : Case) (hk : known c = []) : spec c (model c) = true := by
-  have hs : strWithoutRepr c = false := by
-    unfold known at hk
-    cases h : strWithoutRepr c with
-    | false => rfl
-    | true => simp [h] at hk
+/-- **C15_model_meets_spec** (no hypothesis is needed: no listed deviation is left). -/
+theorem C15_model_meets_spec (c : Case) : spec c (model c) = true := by
   simp only [spec, model, beq_self_eq_true, Bool.true_and]
   cases hd : defError c with
   | none =>
@@ -307,9 +289,15 @@ theorem C15_model_meets_spec (c : Case) (hk : known c = []) : spec c (model c) =
     rw [((C15_characterisation c).1 hd).1]; rfl
   | some k =>
     simp only
-    rcases C15_sound c k hd with h | h
-    · rw [hs] at h; cases h
-    · exact h
+    exact C15_sound c k hd
+
+/-- **C15_str_needs_some_repr** (repair of K15a): `str=True` is rejected by `add_str` only when the class ends up
+    without a `__repr__` of its own — none generated and none in the class body; with an own `__repr__`
+    (whether or not auto_detect is on, whatever `repr=` says) the `add_str` check never fires. -/
+theorem C15_str_needs_some_repr (c : Case) (aa : Bool) (h : c.ownRepr = true) :
+    (c.str && !c.genRepr && !c.ownRepr, Exc.valueError) ∈ wrapChecks c aa ∧
+      (c.str && !c.genRepr && !c.ownRepr) = false := by
+  refine ⟨by simp [wrapChecks], by simp [h]⟩
 
 /-! ### concrete witnesses and non-vacuity -/
 
@@ -327,12 +315,15 @@ def fld (n : String) : Field :=
     kwOnly := false, cmp := .none, eq := .none, order := .none, hash := .none, onSetattr := .none,
     typeArg := false, validator := false, converter := false }
 
-/-- K15a witness: `@define(str=True)` on a class with its own `__repr__` is rejected although nothing of the
-    table applies. -/
-theorem K15a_witness :
-    ∃ c, wf c = true ∧ "K15a" ∈ known c ∧ spec c (model c) = false :=
-  ⟨{ plain with api := .define, str := true, ownRepr := true, fields := [fld "a"] }, by decide, by decide,
-    by decide⟩
+/-- K15a regression: `@define(str=True)` on a class with its own `__repr__` (the former witness) is defined,
+    and so is `@attr.s(str=True, repr=False)` with an own `__repr__`; `repr=False` with no `__repr__` in the body
+    is still rejected, and the specification accepts that. -/
+theorem K15a_repaired :
+    defError { plain with api := .define, str := true, ownRepr := true, fields := [fld "a"] } = none ∧
+    defError { plain with str := true, repr := .f, ownRepr := true } = none ∧
+    defError { plain with str := true, repr := .f } = some .valueError ∧
+    allowedKind { plain with str := true, repr := .f } .valueError = true ∧
+    mustFail { plain with str := true, repr := .f } = false := by decide
 
 /-- non-vacuity of `C15_no_spurious`: a valid specification with fields, inheritance and options -/
 example : defError { plain with api := .define, frozen := true, cacheHash := true, baseAttrs := [{ addedAttr with name := "p" }], fields := [fld "a", { (fld "b") with dflt := true }, { (fld "c") with kwOnly := true }] } = none := by decide
